@@ -23,6 +23,11 @@ func Rethrow(link *Defer) {
 			c.Free(ptr)
 			c.Exit(2)
 		} else {
+			// The rethrowing frame is done. Make link the head of the thread's
+			// defer chain on every path: the compiler-emitted reset is skipped
+			// when the last replayed deferred call panics, which would leave the
+			// head pointing at a frame that is no longer on the stack.
+			SetThreadDefer(link)
 			c.Siglongjmp(link.Addr, 1)
 		}
 	} else if ptr := goexitKey.Get(); ptr != nil {
@@ -32,6 +37,7 @@ func Rethrow(link *Defer) {
 		// 2) Once we've unwound past the last frame (link==nil), terminate the
 		//    current pthread.
 		if link != nil {
+			SetThreadDefer(link)
 			c.Siglongjmp(link.Addr, 1)
 		}
 		if pthread.Equal(mainThread, pthread.Self()) != 0 {
